@@ -53,3 +53,11 @@ def graph_states_gens(n, gid):
 def lib_graph_masks(graph):
     n = graph.num_vertices
     return [sum((int(graph.adjacency_matrix[v, w]) & 1) << w for w in range(n)) for v in range(n)]
+
+
+def warm(ns=(2, 3, 4, 5, 6)):
+    """Build the key->index search structures in the parent so that forked workers inherit them."""
+    for n in ns:
+        g = sg(n)
+        g.index_of(g.key(0))
+        g.first_of_component()
